@@ -2,6 +2,9 @@
 import bisect, z3
 from vals import *
 
+def _enumerable(v):
+    return isinstance(v, int) or (isinstance(v, GV) and all(isinstance(x, int) for _, x in v.alts))
+
 class Region:
     __slots__ = ('base', 'size', 'kind', 'name', 'freed', 'live', 'tid')
     def __init__(s, base, size, kind, name, live, tid):
@@ -99,6 +102,18 @@ class Memory:
         old = s.mem.get(addr)
         if old is not None and old[0] == size:
             s.mem[addr] = (size, ite(guard, val, old[1], size * 8)); return
+        # store into part of one larger cell (e.g. a 4-byte counter update aliased - on an infeasible merged path - with an
+        # 8-byte pointer field): rewrite the containing cell as a whole instead of splitting it into bytes, so that values
+        # that are finite sets of concrete alternatives stay enumerable
+        for back in range(0, 8):
+            cc = s.mem.get(addr - back)
+            if cc is None: continue
+            if cc[0] >= back + size and cc[0] <= 8 and cc[0] > size and _enumerable(cc[1]) and _enumerable(val):
+                W = cc[0] * 8; sh = 8 * back; full = (1 << W) - 1; msk = (((1 << (8 * size)) - 1) << sh)
+                vz = mapv(val, lambda x: x & ((1 << (8 * size)) - 1), lambda x: z3.ZeroExt(W - 8 * size, x), W)
+                merged = binop('or', binop('and', cc[1], full & ~msk, W), binop('shl', vz, sh, W) if sh else vz, W)
+                s.mem[addr - back] = (cc[0], merged if guard is True else ite(guard, merged, cc[1], W)); return
+            break
         s.split(addr, size)
         if guard is True:
             for i in range(size): s.mem.pop(addr + i, None)
